@@ -157,7 +157,21 @@ def make_doc(r):
     if fmt in ("pprint", "pprint_barred", "tsv", "csvlite", "markdown", "usv", "asv", "nidx", "xtab") and r.chance(0.4):
         flags = flags + [r.choice(["--implicit-csv-header", "--allow-ragged-csv-input", "--implicit-tsv-header",
                                    "--pass-comments", "--skip-comments", "--no-dedupe-field-names", "--repifs", "--lazy-quotes", "-S", "-A", "-O"])]
+    if r.chance(0.12):
+        # degenerate values of reader options: still "any reader options" of the property
+        flags = flags + r.choice(DEGENERATE)
     return flags, text.encode("utf-8"), fmt
+
+
+DEGENERATE = [["--ifs", ""], ["--ips", ""], ["--irs", ""], ["--ifs-regex", ""], ["--ips-regex", ""], ["--ifs-regex", "("], ["--ips-regex", "[a-"],
+              ["--ifs", "\\"], ["--ifs", "\\x"], ["--ips", "\\"], ["--irs", "\\"], ["--ifs", "\n"], ["--ips", "\n"], ["--irs", "a"],
+              ["--fixed", "abc"], ["--fixed", "widths:"], ["--fixed", "widths:0"], ["--fixed", "widths:1,9223372036854775807"], ["--fixed", "widths:a"],
+              ["--fixed", "widths:3,2"], ["--fixed", "left-align"], ["--fixed", "right-align-multi-word"], ["--fw"], ["--fixed", ""],
+              ["--pass-comments-with", ""], ["--skip-comments-with", ""], ["--pass-comments-with", "ab"], ["--skip-comments-with", "\n"],
+              ["--records-per-batch", "0"], ["--records-per-batch", "-1"], ["--nr-progress-mod", "0"], ["--nr-progress-mod", "-3"],
+              ["--ifs", "semicolon", "--ips", "semicolon"], ["--ifs", "a", "--ips", "a"], ["--ifs", "\"", "--quote-all"], ["--ifs", "\r"],
+              ["--implicit-csv-header", "--headerless-csv-input"], ["--allow-ragged-csv-input", "--implicit-csv-header"], ["--repifs", "--ifs", ""],
+              ["--ifs", "\u00e9"], ["--ifs", "\xff"], ["--ips", "\xff\xfe"], ["--irs", "\xff"]]
 
 
 SPECIAL = [b"\"", b",", b"\t", b"\r", b"\n", b"\x00", b"\xff", b"\xef\xbb\xbf", b"{", b"}", b"[", b"]", b":", b"=", b" ", b"\\", b"#", b"|", b"-", b"\xc3", b"\xe2\x90",
@@ -196,9 +210,18 @@ def build_case(r, tier):
     for _ in range(nm):
         data, what = mutate(r, data)
         muts.append(what)
+    big = False
+    if fmt in ("json", "jsonl", "yaml") and r.chance(0.06):
+        # unbalanced brackets, a lot of them: recursion depth of the decoder is input-controlled
+        opener = r.choice([b"[", b"{\"a\":", b"[{\"a\":", b"[[", b"{\"a\":["] if fmt != "yaml" else [b"[", b"{a: ", b"- "])
+        depth = r.choice([300, 20000, 20000, 3000000])
+        k = r.below(len(data) + 1)
+        data = data[:k] + opener * depth + data[k:]
+        muts.append("nest@%d x%d %r" % (k, depth, opener))
+        big = depth >= 100000
     wrap = r.choice(["", "", "", "", "gz", "z", "bz2"])
     name = "in.dat"
-    if wrap:
+    if wrap and not big:
         import bz2
         import gzip
         import zlib
@@ -217,7 +240,8 @@ def build_case(r, tier):
     oflags = r.choice([["--ojson"], ["--ojson"], ["--ocsv"], [], ["--oxtab"], ["--opprint"], ["--otsv"]])
     stdin = r.chance(0.3) and not wrap
     return {"kind": "corrupt", "fmt": fmt, "flags": flags, "data": data.decode("latin1"), "name": name, "mutations": muts, "faults": faults,
-            "verbs": verbs, "oflags": oflags, "stdin": stdin, "cseed": r.randint(1, 1 << 40), "nconf": 3 if tier == "quick" else 6}
+            "verbs": verbs, "oflags": oflags, "stdin": stdin and not big, "cseed": r.randint(1, 1 << 40), "nconf": (3 if tier == "quick" else 6) if not big else 1,
+            "big": big}
 
 
 def evaluate(case, chk):
@@ -236,9 +260,9 @@ def evaluate(case, chk):
         cfgs = []
         for i in range(case["nconf"]):
             c = {"sched": random_sched(rng, None), "batch": rng.choice([None, 1, 2, 3]), "rtseed": rng.randint(1, 1 << 30)}
-            if rng.chance(0.7):
+            if rng.chance(0.7) and not case.get("big"):
                 c["chunk"] = {"max": rng.choice([1, 1, 2, 3, 7, 64]), "mode": rng.choice(["fixed", "random"]), "seed": rng.randint(1, 1 << 30)}
-            if rng.chance(0.5):
+            if rng.chance(0.5) and not case.get("big"):
                 c["knobs"] = {"bufr": rng.choice([16, 16, 17, 64])}
             if case["stdin"] and rng.chance(0.5) and data:
                 arr, pos = [], 0
